@@ -26,10 +26,18 @@ C18_GRAPH_PART = (G, "gosym_part", dict(name="c18_graph", entry="pkg/packaging.V
                                assumptions=C18_ASSUME,
                                desc="LoadPackage on every import multigraph over n packages (args: n, max out-degree; every list order, repeated and self imports) with symbolic namespaces: "
                                     "terminates; cycle or namespace conflict among reachable packages => error; otherwise success, each reachable package once, every import resolved" + C18_TERM_DESC))
-C18_DAG_PART = (G, "gosym_part", dict(name="c18_dag", entry="pkg/packaging.VerifC18Dag", args_quick=(4,), args_thorough=(5,),
-                               extra_quick=("-max-paths", "200000"), extra_thorough=("-max-paths", "4000000"),
+# C10 (totality of the package loader): the same harness with out-degree <= 1 in the quick tier (every self-import,
+# 2- and 3-cycle and chain over 3 packages), the full multigraph part in the thorough tier
+C10_GRAPH_PART = (G, "gosym_part", dict(C18_GRAPH_PART[2], name="c10_loader_graph", args_quick=(3, 1), args_thorough=(3, 2),
+                                        required_sites=("terminates-without-panic", "cycle-or-conflict-rejected", "acyclic-accepted")))
+C18_DAG_PART = (G, "gosym_part", dict(name="c18_dag", entry="pkg/packaging.VerifC18Dag", args_quick=(4, 1), args_thorough=(4, 1),
+                               extra_quick=("-max-paths", "200000"), extra_thorough=("-max-paths", "200000"),
                                required_sites=("terminates-without-panic", "cycle-or-conflict-rejected", "acyclic-accepted", "shared-package-loaded-once"), assumptions=C18_ASSUME,
                                desc="DAGs over n packages in every import-list order, one optional arbitrary extra edge listed first or last and a symbolic namespace on the last package" + C18_TERM_DESC))
+C18_DAG5_PART = (G, "gosym_part", dict(name="c18_dag5", entry="pkg/packaging.VerifC18Dag", args_quick=(5, 0), args_thorough=(5, 0), tiers=("thorough",),
+                               extra_quick=("-max-paths", "4000000"), extra_thorough=("-max-paths", "4000000"),
+                               required_sites=("terminates-without-panic", "cycle-or-conflict-rejected", "acyclic-accepted", "shared-package-loaded-once"), assumptions=C18_ASSUME,
+                               desc="DAGs over 5 packages with ascending / descending import lists, one optional arbitrary extra edge listed first or last and a symbolic namespace on the last package" + C18_TERM_DESC))
 
 
 def c18_key(aid, events, outs):
@@ -41,6 +49,8 @@ def c18_key(aid, events, outs):
 
 def c09_key(aid, events, outs):
     o = {x["key"]: x["val"] for x in outs}
+    if o.get("case") == "stream-in-type-argument-of-step" and aid == "violation-rejected":
+        return "c09:stream-in-type-argument-of-step-accepted"
     return "c09:%s:%s" % (aid, o.get("rule", "?"))
 
 
@@ -124,6 +134,17 @@ def only_thorough(spec):
     return (mod, fn, dict(kw, tiers=("thorough",)))
 
 
+C10_PARSER_PART = (G, "gosym_part", dict(name="c10_expression_parser", entry="pkg/dsl.VerifC10Parser", args_quick=(4,), args_thorough=(6,),
+                                         extra_quick=("-max-paths", "200000", "-replay-sample", "24"), extra_thorough=("-max-paths", "4000000", "-replay-sample", "48"),
+                                         required_sites=("parser-terminates", "parser-does-not-panic", "expression-or-error"),
+                                         assumptions=["the regular-expression lexer (participle) is outside the executor: its output is over-approximated by EVERY sequence of n tokens over "
+                                                      "the 19 token kinds of expressionLexer (symbolic token type per position; token text fixed to \"1\") followed by EOF",
+                                                      "participle's PeekingLexer / lexer.Upgrade / Token.EOF are the library's own code, interpreted; lexer.MustSimple / Symbols are modelled "
+                                                      "(rule i gets token type EOF-1-i, as in participle v2.1.4)",
+                                                      "termination = the parse completes within 400 nested calls and 400000 SSA instructions (verifBounded); natively a 5 s child process"],
+                                         desc="the hand-written precedence parser for computed-field expressions (parseExpr, parseExprWithPrecedence, parseAtom, parseCall, parseSubscript, "
+                                              "parseSubscriptArg, combineOperands) on every token sequence of length n (arg): terminates, does not panic, returns exactly one of (expression, error)"))
+
 C10_FORMS = {
     0: (G, "gosym_part", dict(name="c10_computed_form0", entry="internal/zzverif.C10Computed", args_quick=(1, 0), args_thorough=(1, 0), key_fn=c10_key,
                                required_sites=("validate-does-not-panic",), assumptions=C10_ASSUME,
@@ -151,14 +172,15 @@ C10_FORMS = {
 C10_SHAPES_ASSUME = ["arbitrary bytes / YAML text are outside this technique (yaml.v3, participle); type shapes are arbitrary at the AST level dsl.Validate receives, restricted to "
                      "what yaml.go (UnmarshalTypeYAML, Unmarshal{Vector,Array,Map,Stream,Union}YAML, UnmarshalGenericNode) and convertType can produce",
                      "shape vocabulary: harness zz_c10_shapes.go, one family per part; array / vector lengths absent, 0 or 3; dimension names, tags and type names from small finite sets "
-                     "(type names decided by the solver); host model: enum, record, aliases, generic record, generic alias, protocol"]
+                     "(type names decided by the solver); host model: enum, record, aliases, generic record, generic alias, protocol",
+                     "precondition of dsl.Validate: no nil entry in SimpleType.TypeArguments (UnmarshalGenericNode rejects `args: [null]` at parse time since fix 70c3945); such hand-built ASTs are excluded"]
 C10_SHAPE_FAMILIES = ["arrays of rank 0-2 (3) whose dimensions independently have / lack a length (0 or 3) and a name (incl. empty, duplicate, badly cased), `dimensions` absent or empty",
                       "case lists (empty, [null], [T], [null,T], [T,U], [null,T,T'], [T,null], [null,null]) under no dimensionality / vector / fixed vector of length 0 / 3 / map / array / stream",
-                      "simple type names that are unknown, primitives, records, enums, generics, type parameters, protocols, qualified, with 0-2 type arguments incl. unresolvable, compound and ill-formed arguments (null type arguments excluded: reported defect)",
+                      "simple type names that are unknown, primitives, records, enums, generics, type parameters, protocols, qualified, with 0-2 type arguments incl. unresolvable, compound and ill-formed arguments (null type arguments excluded: rejected by the parser)",
                       "maps whose key is a record / enum / alias / type parameter / unknown / protocol / generic instantiation / vector / optional / union / empty union / map, over 8 value case lists",
                       "generalized types (7 dimensionalities x 3 case lists) nested directly as optional inner, union case, vector / array element or map key of another generalized type",
                       "`!union` maps with 0-3 explicitly tagged cases (null types, duplicate types, unknown types) and tags from {a, b, A, empty} (so duplicate, empty, badly cased), plain or as vector element"]
-C10_SHAPES = [(G, "gosym_part", dict(name="c10_type_shapes", entry="internal/zzverif.C10TypeShapes", args_quick=(-1, 0, 0), args_thorough=(-1, 1, 1), key_fn=c10_key,
+C10_SHAPES = [(G, "gosym_part", dict(name="c10_type_shapes", entry="internal/zzverif.C10TypeShapes", args_quick=(-1, 0, 0), args_thorough=(-1, 1, 1), extra_thorough=("-max-paths", "200000"), key_fn=c10_key,
                                      required_sites=("validate-does-not-panic", "error-is-located"), assumptions=C10_SHAPES_ASSUME,
                                      desc="dsl.Validate on a host model with one producible, possibly rule-violating type shape at a symbolic position (record field, union case, vector element, "
                                           "map value, alias target, protocol step, generic argument, field / alias target of a generic definition; thorough: + optional inner, stream item, "
@@ -173,6 +195,13 @@ def c05_key(aid, events, outs):
 
 def c05_nested_key(aid, events, outs):
     o = {x["key"]: x["val"] for x in outs}
+    # one key per distinct emitter defect (statement forms of writeTypeConversion that are not well-formed C++)
+    if aid in ("no-redeclared-variable", "subscript-store-only-on-vector-or-array") and o.get("redeclared"):
+        return "c05:nested-vector-conversion-shadows-loop-variable"
+    if aid in ("resize-only-on-vector", "subscript-store-only-on-vector-or-array") and "optional" in (o.get("resize-on"), o.get("subscript-store-on")) and not o.get("redeclared"):
+        return "c05:optional-vector-conversion-resizes-optional"
+    if aid == "resize-only-on-vector" and o.get("resize-on") == "array":
+        return "c05:fixed-vector-conversion-resizes-array"
     if "chain" in o:
         return "c05:%s:wrappers=%s" % (aid, o.get("chain") or "none")
     return "c05:%s:%s" % (aid, o.get("change", "?"))
@@ -185,6 +214,9 @@ def c06_key(aid, events, outs):
     o = {x["key"]: x["val"] for x in outs}
     if o.get("container") in ("1", "2") and aid in ("compatible-change-accepted", "partial-change-accepted"):
         return "c06:change-to-record-used-as-map-value-or-array-element-rejected"
+    if (o.get("nested-spelling") == "true" and o.get("spelling-verdict") == "error" and o.get("flat-verdict") in ("silent", "warning")
+            and aid in ("nested-spelling-documented-class", "nested-spelling-same-verdict-as-flat")):
+        return "c06:item-type-spelled-as-nested-optional-or-union-rejected"
     if o.get("closed-pair") == "true":
         return "c06:type-arguments-not-compared-through-differently-named-closed-aliases"
     return "c06:%s:%s" % (aid, o.get("edit", "?"))
@@ -338,6 +370,16 @@ PARTS = {
                                required_sites=("element-wise-data-flow", "assigns-static-cast-to-target", "no-silent-wrap", "no-spurious-overflow-error"),
                                assumptions=C05_ASSUME,
                                desc="same for the write direction (the emitter inverts the change object): the range check for the previous version's narrower element type must be present at the innermost level")),
+        (G, "gosym_part", dict(name="c05_nested_conversion_illformed", entry="internal/zzverif.C05NestedConversionIllFormed", args_quick=(0,), args_thorough=(1,), key_fn=c05_nested_key,
+                               required_sites=("nested-integer-change-accepted", "emitted-conversion-understood", "element-wise-data-flow", "one-element-conversion", "assigns-static-cast-to-target",
+                                               "no-silent-wrap", "no-spurious-overflow-error", "no-redeclared-variable", "resize-only-on-vector", "subscript-store-only-on-vector-or-array"),
+                               assumptions=C05_ASSUME + ["wrapper chains: vector of vector, batched stream of vector, optional of vector, fixed-length vector; both directions (symbolic); quick: integer pairs over "
+                                                         "{int8, uint16, int32, uint64}, thorough: all 72 pairs",
+                                                         "well-formedness of the read-back statements: C++ block scoping (a `for` / item declaration may not re-declare a name whose outer declaration the emitted "
+                                                         "element expressions still rely on), `.resize` exists on std::vector only, `x[i] = ..` needs std::vector or std::array; the type of `dst` is "
+                                                         "cpp/common.TypeSyntax of the destination type (what writeProtocolStep / writeCompatibilitySerializers declare), item types are the emitted declarations"],
+                               desc="obligations of c05_nested_conversion_* (element-wise flow, one cast to the destination element type, throws iff the value does not fit) plus well-formedness of the "
+                                    "emitted statement forms, for the wrapper chains whose conversion the unchanged tree emits as ill-formed C++ (accepted by yardl generate, rejected by a C++ compiler)")),
         (G, "gosym_part", dict(name="c05_inverse", entry="internal/zzverif.C05Inverse", args_quick=(2,), args_thorough=(3,), key_fn=c05_nested_key,
                                extra_thorough=("-max-paths", "400000"),
                                required_sites=("compare-total", "inverse-total", "inverse-swaps-direction-at-every-level", "inverse-is-an-involution", "inverse-equals-reverse-comparison"),
@@ -356,7 +398,7 @@ PARTS = {
                                desc="real dsl.Validate (resolveComputedFields, GetCommonType, insertConversion) on `a op b` and `b op a` for symbolic numeric primitive types of a, b "
                                     "(13 x 13) and all 5 operators: accept/reject and static type do not depend on operand order; kind/width of the result")),
     ],
-    "C10": [C10_FORMS[f] for f in (0, 1, 3, 4, 5)] + [only_thorough(C10_FORMS[f]) for f in (2, 6)] + C10_SHAPES + [C18_GRAPH_PART],  # C18_GRAPH_PART: no hang / panic of the package loader for any import graph
+    "C10": [C10_FORMS[f] for f in (0, 1, 3, 4, 5)] + [only_thorough(C10_FORMS[f]) for f in (2, 6)] + C10_SHAPES + [C10_GRAPH_PART, C10_PARSER_PART],  # C10_GRAPH_PART: no hang / panic of the package loader for any import graph
     "C09": [
         (G, "gosym_part", dict(name="c09_base", entry="internal/zzverif.C09Base", required_sites=("base-accepted",), assumptions=C09_ASSUME,
                                desc="the unmodified two-namespace base model validates (guards against an over-rejecting harness)")),
@@ -379,7 +421,8 @@ PARTS = {
         (G, "gosym_part", dict(name="c09_generic_type_rules", entry="internal/zzverif.C09GenericTypeRule", args_quick=(0,), args_thorough=(1,), key_fn=c09_key,
                                required_sites=("violation-rejected", "error-names-offending-file", "no-panic"), assumptions=C09_GENERIC_ASSUME,
                                desc="the 16 type-level rule violations written as (part of) a type argument of the 10 generic carriers x {main, imported namespace} "
-                                    "(thorough: x {record field, alias, protocol step}): the real dsl.Validate returns an error naming the offending file")),
+                                    "(quick: as record field, and a stream also as type argument of a protocol step; thorough: x {record field, alias, protocol step}): "
+                                    "the real dsl.Validate returns an error naming the offending file")),
     ],
     "C13": [
         (G, "gosym_part", dict(name="c13_order_and_files", entry="internal/zzverif.C13Order", args_quick=(1,), args_thorough=(0,),
@@ -515,6 +558,7 @@ PARTS = {
     "C18": [
         C18_GRAPH_PART,
         C18_DAG_PART,
+        C18_DAG5_PART,
         C18_NS_PART,
         (G, "gosym_part", dict(name="c18_depth", entry="pkg/packaging.VerifC18Depth", args_quick=(12,), args_thorough=(13,),
                                required_sites=("too-deep-rejected",), assumptions=C18_ASSUME, key_fn=c18_key,
@@ -559,14 +603,14 @@ PARTS = {
                                             "optionally the record also occurs as map value or array element"],
                                desc="real dsl.Validate on old and new = edit(old), then real ValidateEvolution: verdict class (silent / warning / error) equals the documented class for "
                                     "27 edit kinds, alone and combined with a compatible change of the record they refer to; number pair and vector lengths symbolic")),
-        (G, "gosym_part", dict(name="c06_reference_shapes", entry="internal/zzverif.C06RefShape", args_quick=(0, 0), args_thorough=(1, 0), key_fn=c06_key,
+        (G, "gosym_part", dict(name="c06_reference_shapes", entry="internal/zzverif.C06RefShape", args_quick=(0, 1), args_thorough=(1, 1), key_fn=c06_key,
                                extra_thorough=("-max-paths", "100000"),
                                required_sites=("verdict-without-panic", "breaking-change-rejected", "partial-change-accepted", "partial-change-warned",
                                                "compatible-change-accepted", "compatible-change-silent"),
                                assumptions=["oracle from docs/cpp/evolution.md: adding or removing aliases is compatible, changing the type arguments to a generic type is breaking, "
                                             "the class of an edit of a record / enum definition does not depend on how the definition is referenced",
-                                            "second harness argument strict=0: the class is not asserted when both versions reach the generic through differently named closed aliases "
-                                            "and the type argument changed / was edited (reported defect of the unchanged tree; strict=1 asserts it)"],
+                                            "second harness argument strict=1: the class is also asserted when both versions reach the generic through differently named closed aliases "
+                                            "(the unchanged tree accepted such changes silently; repaired by fix d518244)"],
                                desc="real Validate + ValidateEvolution where old and new independently reach the target (generic record G<prim>, G<R>, record R, enum E) through a direct reference, "
                                     "a closed alias, an alias of an alias, a generic alias with explicit type arguments or a closed alias of a generic alias, aliases defined only where needed or "
                                     "everywhere: verdict class = documented class of (type-argument change | record edit | enum edit), independent of the reference shapes; "
@@ -580,6 +624,14 @@ PARTS = {
                                desc="real Validate + ValidateEvolution on old, new = `null`? + an ordered selection of 1-3 distinct case types out of a pool of three "
                                     "({int32, string, float32} or {int32, string, Rec} with Rec gaining an optional field), as a step type (thorough: also record field, stream item, alias): "
                                     "the verdict class equals the documented class wherever the matching case sits (first / middle / last) on either side")),
+        (G, "gosym_part", dict(name="c06_item_spelling", entry="internal/zzverif.C06ItemSpelling", key_fn=c06_key,
+                               required_sites=("both-versions-valid", "verdict-without-panic", "flat-spelling-documented-class",
+                                               "nested-spelling-documented-class", "nested-spelling-same-verdict-as-flat"),
+                               assumptions=["flat spelling = `items: [null, T]` / `items: [T, U]` (cases of the dimensioned type, yaml.go UnmarshalTypeCases); nested spelling = `items: T?`, `T?*` "
+                                            "(applyTypeTail) / `items: !union {..}` (UnmarshalUnionYAML, explicit tags equal to the derived ones): one case wrapping a scalar GeneralizedType",
+                                            "oracle: docs/cpp/evolution.md classes as in c06_union_positions (upClass); both spellings denote the same type"],
+                               desc="real Validate + ValidateEvolution on `!stream` / `!vector` steps whose item type (int32, int32?, [int32,string], [string,int32], with/without null) is spelled flat or "
+                                    "nested, independently in the old and in the new version: the verdict class is the documented one and equals the verdict of the all-flat spelling")),
         (G, "gosym_part", dict(name="c06_reflexive", entry="internal/zzverif.C06Reflexive", args_quick=(1, 1), args_thorough=(2, 1),
                                required_sites=("reflexive", "total"), assumptions=C06_ASSUME,
                                desc="compareTypes(clone(T), T) reports no change and does not panic, T symbolic (depth, full-primitive leaves)")),
